@@ -4,7 +4,7 @@
     run (C05/Check.v: RC4 and AES-CBC with the per-object keys of Algorithm 1) satisfy this by
     C23's [rc4_spec_involutive] and [cbc_pkcs7_roundtrip_partial]. *)
 From OxVerif Require Import Base.Util C23.Aes C05.EncryptLayer C05.Proofs C05.Check C05.Instances.
-From OxVerif Require Import C23.AesInv C23.AesCbc C05.AesInstance.
+From OxVerif Require C23.AesInv C23.AesCbc C05.AesInstance.
 Require Import List NArith. Import ListNotations.
 
 (** object level: the reader's walk inverts the writer's walk; the payload (all strings, the
@@ -113,11 +113,11 @@ Print Assumptions c05_aes_instance_partial.
 
 (** * AES strengths with no cipher hypothesis left (C23's aes_inv) *)
 Theorem c05_aes_instance : forall meth k id iv x,
-  meth <> 0%N -> key_ok (okey meth k id) -> bytes_ok iv = true -> bytes_ok x = true ->
+  meth <> 0%N -> AesInv.key_ok (okey meth k id) -> bytes_ok iv = true -> bytes_ok x = true ->
   real_dec meth k id (real_enc meth k id iv x) = Some x.
-Proof. exact aes_instance_full. Qed.
+Proof. exact AesInstance.aes_instance_full. Qed.
 Check c05_aes_instance : forall meth k id iv x,
-  meth <> 0%N -> key_ok (okey meth k id) -> bytes_ok iv = true -> bytes_ok x = true ->
+  meth <> 0%N -> AesInv.key_ok (okey meth k id) -> bytes_ok iv = true -> bytes_ok x = true ->
   real_dec meth k id (real_enc meth k id iv x) = Some x.
 Print Assumptions c05_aes_instance.
 
@@ -125,7 +125,7 @@ Print Assumptions c05_aes_instance.
 Theorem c05_aesv2_instance : forall k id iv x,
   List.length k = 16%nat -> bytes_ok iv = true -> bytes_ok x = true ->
   real_dec 1 k id (real_enc 1 k id iv x) = Some x.
-Proof. exact aesv2_instance. Qed.
+Proof. exact AesInstance.aesv2_instance. Qed.
 Check c05_aesv2_instance : forall k id iv x,
   List.length k = 16%nat -> bytes_ok iv = true -> bytes_ok x = true ->
   real_dec 1 k id (real_enc 1 k id iv x) = Some x.
@@ -135,7 +135,7 @@ Print Assumptions c05_aesv2_instance.
 Theorem c05_aesv3_instance : forall k id iv x,
   List.length k = 32%nat -> bytes_ok k = true -> bytes_ok iv = true -> bytes_ok x = true ->
   real_dec 2 k id (real_enc 2 k id iv x) = Some x.
-Proof. exact aesv3_instance. Qed.
+Proof. exact AesInstance.aesv3_instance. Qed.
 Check c05_aesv3_instance : forall k id iv x,
   List.length k = 32%nat -> bytes_ok k = true -> bytes_ok iv = true -> bytes_ok x = true ->
   real_dec 2 k id (real_enc 2 k id iv x) = Some x.
